@@ -29,7 +29,7 @@ ASSUMPTIONS = [
     "only messages the reference ASGI automaton allows (given what the app itself sent) must be accepted silently",
 ]
 BOUNDS_DOC = {"quick": "M<=1 mid-flight injections, S<=2 preemptions, R=0", "thorough": "M<=2, S<=3, trio R<=1"}
-BUDGET = {"quick": 100, "thorough": 1500}
+BUDGET = {"quick": 300, "thorough": 1800}
 
 START = {"type": "http.response.start", "status": 200, "headers": [(b"content-length", b"4")]}
 START_CHUNKED = {"type": "http.response.start", "status": 200, "headers": []}
